@@ -1,6 +1,7 @@
 package drivers
 
 import (
+	"math/rand"
 	"os"
 
 	"go.etcd.io/bbolt/verifh/exec"
@@ -42,6 +43,12 @@ func apiPrograms(seed int64, n int, profiles []string, tweak func(i int, cfg *ge
 		out = append(out, gen.Generate(seed, i, cfg))
 	}
 	return out
+}
+
+// sessionOpts draws the options of a later session of the same file: backend, freelist-sync and grow-sync may
+// all differ from the session before (a file last written with a persisted list is continued without one, ...).
+func sessionOpts(r *rand.Rand) gen.OpenOpts {
+	return gen.OpenOpts{Freelist: backends[r.Intn(2)], NoFreelistSync: r.Intn(2) == 0, NoGrowSync: r.Intn(3) == 0}
 }
 
 func runC04(c *Ctx) int {
